@@ -378,6 +378,136 @@ func (c *c14Run) early(f []string) string {
 	return "returned"
 }
 
+// hold <peerdeath|selfclose>: a callback-mode stream is closed by the application while its session is healthy; its
+// OnLocalClose is still running when the session dies (the peer goes away, or the application closes the session on another
+// goroutine) and the session's clean-up has run; then the callback returns: Stream.Close must come back without a panic
+type c14HoldCB struct {
+	entered chan struct{}
+	gate    chan struct{}
+}
+
+func (b *c14HoldCB) OnData(r BufferReader) {
+	if n := r.Len(); n > 0 {
+		r.ReadBytes(n)
+		r.ReleasePreviousRead()
+	}
+}
+func (b *c14HoldCB) OnLocalClose() {
+	select {
+	case b.entered <- struct{}{}:
+	default:
+	}
+	<-b.gate
+}
+func (b *c14HoldCB) OnRemoteClose() {}
+
+type c14HoldLCB struct {
+	cb *c14HoldCB
+	ch chan *Stream
+}
+
+func (l *c14HoldLCB) OnNewStream(s *Stream) {
+	s.SetCallbacks(l.cb)
+	select {
+	case l.ch <- s:
+	default:
+	}
+}
+func (l *c14HoldLCB) OnShutdown(reason string) {}
+
+func (c *c14Run) hold(f []string) string {
+	mode := f[1]
+	if mode != "peerdeath" && mode != "selfclose" {
+		return "bad-op"
+	}
+	n := atomic.AddUint64(&c14Seq, 1)
+	prefix := fmt.Sprintf("/dev/shm/verif_c14h_%d_%d", os.Getpid(), n)
+	fds, err := syscall.Socketpair(syscall.AF_UNIX, syscall.SOCK_STREAM|syscall.SOCK_CLOEXEC, 0)
+	if err != nil {
+		return "bad-op"
+	}
+	f0, f1 := os.NewFile(uintptr(fds[0]), "a"), os.NewFile(uintptr(fds[1]), "b")
+	ca, _ := net.FileConn(f0)
+	cb, _ := net.FileConn(f1)
+	f0.Close()
+	f1.Close()
+	hcb := &c14HoldCB{entered: make(chan struct{}, 1), gate: make(chan struct{})}
+	lcb := &c14HoldLCB{cb: hcb, ch: make(chan *Stream, 4)}
+	scfg := c12Config(prefix+"_srv", MemMapTypeMemFd)
+	scfg.listenCallback = lcb
+	chC := c12Start(c12Config(prefix, MemMapTypeMemFd), ca, true)
+	chS := c12Start(scfg, cb, false)
+	rc, okc := c12Wait(chC, 20*time.Second)
+	rs, oks := c12Wait(chS, 20*time.Second)
+	released := false
+	release := func() {
+		if !released {
+			released = true
+			close(hcb.gate)
+		}
+	}
+	defer func() {
+		release()
+		c12CloseSession(rc.sess)
+		c12CloseSession(rs.sess)
+	}()
+	if !okc || !oks || rc.err != nil || rs.err != nil {
+		c.setFail("e2e-setup", fmt.Sprintf("establishment failed: %v / %v", rc.err, rs.err))
+		return "setup-failed"
+	}
+	cli, srv := rc.sess, rs.sess
+	st, err := cli.OpenStream()
+	if err != nil {
+		c.setFail("e2e-setup", "OpenStream: "+err.Error())
+		return "setup-failed"
+	}
+	st.BufferWriter().WriteString("hello")
+	st.Flush(false)
+	var ss *Stream
+	select {
+	case ss = <-lcb.ch:
+	case <-time.After(10 * time.Second):
+		c.setFail("e2e-setup", "the server never saw the stream")
+		return "setup-failed"
+	}
+	call := c14Go("Stream.Close", func() error { return ss.Close() })
+	select {
+	case <-hcb.entered:
+	case <-time.After(10 * time.Second):
+		c.setFail("e2e-setup", "OnLocalClose was not called for a Close on a healthy session")
+		return "setup-failed"
+	}
+	// the session dies while the callback runs
+	if mode == "peerdeath" {
+		syscall.Shutdown(cli.connFd, syscall.SHUT_RDWR)
+	} else {
+		go srv.Close()
+	}
+	for t0 := time.Now(); time.Since(t0) < 8*time.Second; {
+		srv.shutdownLock.Lock()
+		gone := srv.queueManager == nil
+		srv.shutdownLock.Unlock()
+		if gone {
+			break
+		}
+		time.Sleep(time.Millisecond)
+	}
+	c.tags["session-dies-during-close-callback-"+mode] = true
+	release()
+	select {
+	case <-call.done:
+	case <-time.After(8 * time.Second):
+		c.setFail("close-hangs-after-session-died-in-callback", "Stream.Close did not return within 8 s of its close callback returning on a session that died meanwhile")
+		return "hang"
+	}
+	if call.pan != nil {
+		// S (C14): if the session breaks at any moment nothing panics; Session.Close is safe concurrently with traffic
+		c.setFail("stream-close-panics-when-session-died-in-callback", fmt.Sprintf("the session died (%s) while the stream's OnLocalClose was running; when the callback returned Stream.Close panicked: %v", mode, call.pan))
+		return "panic"
+	}
+	return "returned"
+}
+
 func (c *c14Run) e2e(f []string) string {
 	mt := MemMapTypeDevShmFile
 	if f[1] == "memfd" {
@@ -612,7 +742,7 @@ func c14Exec(ops []string) vResult {
 	internalLogger = &logger{"", io.Discard, 3}
 	n := atomic.AddUint64(&c14Seq, 1)
 	c := &c14Run{tags: map[string]bool{}, prefix: fmt.Sprintf("/dev/shm/verif_c14_%d_%d", os.Getpid(), n)}
-	if len(ops) > 0 && (strings.HasPrefix(ops[0], "e2e ") || strings.HasPrefix(ops[0], "early ")) {
+	if len(ops) > 0 && (strings.HasPrefix(ops[0], "e2e ") || strings.HasPrefix(ops[0], "early ") || strings.HasPrefix(ops[0], "hold ")) {
 		c12WarmOnce.Do(func() {
 			w := &c12Run{tags: map[string]bool{}}
 			w.scenario([]string{"pair", "file"})
@@ -625,6 +755,8 @@ func c14Exec(ops []string) vResult {
 				out = append(out, c.e2e(f))
 			} else if len(f) == 2 && f[0] == "early" {
 				out = append(out, c.early(f))
+			} else if len(f) == 2 && f[0] == "hold" {
+				out = append(out, c.hold(f))
 			} else {
 				out = append(out, "bad-op")
 			}
@@ -679,6 +811,9 @@ func c14Exec(ops []string) vResult {
 func c14Gen(r *rand.Rand, tier string, idx int) []string {
 	if idx%40 == 7 {
 		return []string{"early " + []string{"eof", "junk"}[r.Intn(2)]}
+	}
+	if idx%40 == 27 {
+		return []string{"hold " + []string{"peerdeath", "selfclose"}[r.Intn(2)]}
 	}
 	if idx%10 == 9 {
 		mt := []string{"file", "memfd"}[r.Intn(2)]
